@@ -81,7 +81,8 @@ def warm_start(
             logger.error("Warm start: No value for variable %s", var)
             raise SystemExit(1)
 
-        state.variables[var] = values
+        # Keep the types of the state (flags on file are integers)
+        state.variables[var] = np.asarray(values).astype(state.dtypes[var])
 
     # # Instance variables with default
     # if "alive" not in wvars:
